@@ -67,14 +67,20 @@ theorem cliSrc_args : CliSrc.args =
 
 /-- `ServerArgs::new` reads each field from the argument of that name; `main` hands the resolved targets to
     `ServerConfig`, the resolved allow-list and a `SqliteStorage` on the resolved directory to `WebServer::new`, and
-    binds every resolved listen address with `?` (which is what `httpCfgOf` and `startup` say) -/
+    binds every resolved listen address with `?` (which is what `httpCfgOf` and `startup` say). The wiring is a finite map,
+    listed in sorted order: the order in which the source writes the fields of a struct literal is not part of it -/
 theorem cliSrc_wiring : CliSrc.wiring =
-    [("ServerArgs.data_dir", "arg:data-dir"), ("ServerArgs.snapshot_versions", "arg:snapshot-versions"),
-     ("ServerArgs.snapshot_days", "arg:snapshot-days"), ("ServerArgs.client_id_allowlist", "arg:allow-client-id"),
+    [("ServerArgs.client_id_allowlist", "arg:allow-client-id"),
+     ("ServerArgs.data_dir", "arg:data-dir"),
      ("ServerArgs.listen_addresses", "arg:listen"),
-     ("ServerConfig.snapshot_days", "server_args.snapshot_days"), ("ServerConfig.snapshot_versions", "server_args.snapshot_versions"),
-     ("WebServer::new.0", "config"), ("WebServer::new.1", "server_args.client_id_allowlist"),
-     ("WebServer::new.2", "SqliteStorage::new(server_args.data_dir)?"), ("bind", "each:server_args.listen_addresses:?")] := rfl
+     ("ServerArgs.snapshot_days", "arg:snapshot-days"),
+     ("ServerArgs.snapshot_versions", "arg:snapshot-versions"),
+     ("ServerConfig.snapshot_days", "server_args.snapshot_days"),
+     ("ServerConfig.snapshot_versions", "server_args.snapshot_versions"),
+     ("WebServer::new.0", "config"),
+     ("WebServer::new.1", "server_args.client_id_allowlist"),
+     ("WebServer::new.2", "SqliteStorage::new(server_args.data_dir)?"),
+     ("bind", "each:server_args.listen_addresses:?")] := rfl
 
 /-- **the resolution model is clap's rule applied to the declarations in the source** (delimiters, required,
     defaults – the numeric ones taken from `ServerConfig::default()` as extracted from the source –, which arguments
